@@ -76,4 +76,82 @@ theorem lcomp_iff_before' (lt : Int → Int → Bool) (x : Int) (i : Nat) (y : I
   unfold lcomp Before
   cases h1 : lt x y <;> cases h2 : lt y x <;> simp
 
+/-! ### the order a routine maintains between edge samples
+
+`multisequence_partition` compares (value, sequence) pairs, `multisequence_selection` values only.  Both are
+strict weak orders on samples; `LeR` is the corresponding "not after". -/
+
+def Less (lt : Int → Int → Bool) (r : Routine) (x : Int) (i : Nat) (y : Int) (j : Nat) : Prop :=
+  match r with
+  | .partition => Before lt x i y j
+  | .selection => lt x y = true
+
+def LeR (lt : Int → Int → Bool) (r : Routine) (x : Int) (i : Nat) (y : Int) (j : Nat) : Prop :=
+  ¬ Less lt r y j x i
+
+theorem LeR.trans {lt : Int → Int → Bool} (hlt : StrictWeak lt) {r : Routine} {x y z : Int} {i j k : Nat}
+    (h1 : LeR lt r x i y j) (h2 : LeR lt r y j z k) : LeR lt r x i z k := by
+  cases r with
+  | partition => exact Le.trans hlt h1 h2
+  | selection =>
+    unfold LeR Less at *
+    simp only [Bool.not_eq_true] at *
+    exact hlt.le_trans h1 h2
+
+theorem LeR.of_less {lt : Int → Int → Bool} (hlt : StrictWeak lt) {r : Routine} {x y : Int} {i j : Nat}
+    (h : Less lt r x i y j) : LeR lt r x i y j := by
+  cases r with
+  | partition => exact Le.of_before hlt h
+  | selection =>
+    unfold LeR Less at *
+    simp only [Bool.not_eq_true]
+    exact hlt.asymm _ _ h
+
+theorem LeR.refl {lt : Int → Int → Bool} (hlt : StrictWeak lt) (r : Routine) (x : Int) (i : Nat) : LeR lt r x i x i := by
+  cases r with
+  | partition => exact Le.refl hlt x i
+  | selection => unfold LeR Less; simp [hlt.irrefl]
+
+theorem LeR.same_seq {lt : Int → Int → Bool} (r : Routine) {x y : Int} (i : Nat) (h : lt y x = false) :
+    LeR lt r x i y i := by
+  cases r with
+  | partition => exact Le.same_seq i h
+  | selection => unfold LeR Less; simp [h]
+
+theorem LeR.of_before {lt : Int → Int → Bool} (hlt : StrictWeak lt) (r : Routine) {x y : Int} {i j : Nat}
+    (h : Before lt x i y j) : LeR lt r x i y j := by
+  cases r with
+  | partition => exact Le.of_before hlt h
+  | selection =>
+    unfold LeR Less
+    simp only [Bool.not_eq_true]
+    rcases h with h | ⟨h, _⟩
+    · exact hlt.asymm _ _ h
+    · exact h
+
+/-- the tie rules of the `lmax` scan keep a maximal element (the candidate comes from a later sequence) -/
+theorem takesMax_spec {lt : Int → Int → Bool} (hlt : StrictWeak lt) (r : Routine) {x v : Int} {i s : Nat} (hsi : s < i) :
+    (takesMax lt r x v = true → LeR lt r v s x i) ∧ (takesMax lt r x v = false → LeR lt r x i v s) := by
+  cases r with
+  | partition =>
+    simp only [takesMax, LeR, Less, Bool.not_eq_true', Bool.not_eq_false']
+    constructor
+    · intro h hb
+      rcases hb with hb | ⟨_, hb⟩
+      · rw [h] at hb; cases hb
+      · omega
+    · intro h hb
+      rcases hb with hb | ⟨hb, _⟩
+      · rw [hlt.asymm _ _ h] at hb; cases hb
+      · rw [h] at hb; cases hb
+  | selection =>
+    simp only [takesMax, LeR, Less, Bool.not_eq_true]
+    exact ⟨fun h => hlt.asymm _ _ h, fun h => h⟩
+
+theorem leftTest_iff (lt : Int → Int → Bool) (r : Routine) (x : Int) (i : Nat) (lv : Int) (ls : Nat) :
+    leftTest lt r x i lv ls = true ↔ Less lt r x i lv ls := by
+  cases r with
+  | partition => exact lcomp_iff_before' lt x i lv ls
+  | selection => rfl
+
 end TlxVerif.C08
